@@ -559,6 +559,15 @@ class EvalMixin:
         return z3.If(i < 0, n + i, i)
 
     def slice(self, st, base, lo, hi):
+        # a dynamically typed bound (an attribute without declared type ...): an int, or slicing raises TypeError
+        for which, b in (("lo", lo), ("hi", hi)):
+            if b is not None and not st.spec:
+                bc = self.concretize(st, b)
+                if bc.k == "val":
+                    def cont(s2, which=which, bc=bc):
+                        iv = SV("int", Val.iv(bc.t))
+                        return self.slice(s2, base, iv if which == "lo" else lo, iv if which == "hi" else hi)
+                    return self.may_raise(st, z3.Or(Val.is_IntV(bc.t), bc.t == NoneV) if False else Val.is_IntV(bc.t), "TypeError", cont)
         base = self.concretize(st, base)
         if base.k in ("list", "seq"):
             sq = base.t if base.k == "seq" else self.seq_of(st, base)
@@ -630,7 +639,27 @@ class EvalMixin:
             if srt == B:
                 return [Res(st, SV("bool", t))]
         if base.k == "val" and not st.spec:
-            raise Unsupported("subscript of untyped value")
+            # x[k] on a dynamically typed value: a dict object behaves as a dict; anything else is whatever its __getitem__ does
+            # (an opaque call that may return or raise anything); primitives other than str raise TypeError
+            isdict = z3.And(Val.is_RefV(base.t), clsof(Val.rv(base.t)) == self.ct.id("dict"))
+            out = []
+            for s2, b in self.fork(st, isdict, "subscript:dict"):
+                if b:
+                    out.extend(self.index(s2, SV("dict", Val.rv(base.t)), idx))
+                else:
+                    for s3, b3 in self.fork(s2, Val.is_RefV(base.t), "subscript:obj"):
+                        if b3:
+                            out.extend(self.call_opaque(s3, SV("obj", Val.rv(base.t), h="Opaque"), "Opaque", "__getitem__", [idx], {}, None, None))
+                        else:
+                            # a primitive: text yields some element or IndexError/TypeError (not interpreted), anything else TypeError
+                            s4 = s3.copy()
+                            out.append(self.raise_new(s4, "TypeError"))
+                            for s5, b5 in self.fork(s3, z3.Or(Val.is_StrV(base.t), Val.is_BytesV(base.t)), "subscript:text"):
+                                if b5:
+                                    s6 = s5.copy()
+                                    out.append(self.raise_new(s6, "IndexError"))
+                                    out.append(Res(s5, SV("val", self.fresh("elem", Val))))
+            return out
         raise Unsupported("subscript of " + base.k)
 
     def key_hint(self, d, key):
